@@ -81,7 +81,7 @@ def check_prefix_mappings(events):
 def run(tier):
     ck = core.Check(PID, tier)
     binary = build.ensure('asan', parts=['parse', 'domdump'])
-    n = 1000 if tier == 'quick' else 40000
+    n = 1000 if tier == 'quick' else 16000
     rounds = 1 if tier == 'quick' else 10
     stats = collections.Counter()
     tagc = collections.Counter()
@@ -101,11 +101,13 @@ def run(tier):
                 have = set(p for p, u in root['nsdecls'])
                 extra = [('w%d' % k, 'urn:w:%d' % (k % 7)) for k in range(r.randint(17, 40)) if ('w%d' % k) not in have]
                 root['nsdecls'] += extra
+                cx.ext_files.clear()          # the re-rendering writes the external subset / external entities again
                 rd2 = xmlgen.Renderer(cx, g['doc'])
                 text = rd2.document({'UTF-8': None, 'UTF-8-BOM': 'UTF-8', 'UTF-16LE': 'UTF-16', 'UTF-16BE': 'UTF-16', 'ISO-8859-1': 'ISO-8859-1'}[g['encoding']])
                 g['text'] = text
                 g['spans'] = rd2.spans
                 g['bytes'] = g['bom'] + text.encode(g['codec'], 'surrogatepass')
+                g['ents'] = [('file:///xv/' + k, v) for k, v in cx.ext_files.items()]
                 cx.tags.add('many-decls')
             g['model'] = walk_model(cx, g['doc'])
             prefixes = sorted(set(p for el, ins in g['model'] for p in ins if p not in ('xml',)) | {'zznone'})
